@@ -380,6 +380,9 @@ def normalize_url(
             qsl = sorted(qsl, key=qsl_sort_key)
 
     # Dropping fragment if it's not routing
+    # NOTE: unquoting first, lest routing is not recognized when escaped (%21)
+    fragment = safely_unquote_fragment(fragment)
+
     if fragment and strip_fragment:
         if strip_fragment is True or not should_strip_fragment(fragment):
             fragment = ""
@@ -440,8 +443,6 @@ def normalize_url(
         qsl = safely_quote_qsl(qsl, safe=SAFE_FOR_QUERY_ITEM)
 
     query = safe_serialize_qsl(qsl)
-
-    fragment = safely_unquote_fragment(fragment)
 
     if lowercase:
         fragment = upper_quoted(fragment.lower())
